@@ -74,7 +74,7 @@ func TestVerifC08Seeded(t *testing.T) {
 	rep.Assume("committed forward readers are not checked when retention deleted the segment that holds the HW (what a committed reader does then is outside C08)")
 	rep.Assume("documented reader clamps are honoured: a committed forward reader started above the HW waits (returns nothing with a cancelled context); a committed reverse reader started above the HW or at -1 starts at the HW; an uncommitted reader started beyond the newest offset may fail to open")
 	root := kit.NewRNG(kit.Mix(kit.Seed(), 0xC08))
-	ncases := kit.Scale(700, 5000)
+	ncases := kit.Scale(700, 4500)
 	seeds := make([]uint64, ncases)
 	for i := range seeds {
 		seeds[i] = root.Uint64()
